@@ -267,18 +267,28 @@ func (st *state) check(o observation) *vdrv.Verdict {
 
 	// successful writing build: every reported output is on disk with the reported bytes
 	expect := map[string]string{} // real path → hash
+	lexical := map[string]string{}
 	for _, f := range outputs {
 		p := st.rel(f.Path)
 		h := fsgen.Hash(f.Contents)
 		if prev, dup := expect[p]; dup && prev != h {
-			return fail("two outputs with different contents are reported for one path %s", p)
+			v := fail("two outputs with different contents are written to one path %s (reported as %s and %s)", p, lexical[p], f.Path)
+			// known finding: the two outputs meet only through a symlinked directory (esbuild compares the path strings)
+			if filepath.Clean(lexical[p]) != filepath.Clean(f.Path) {
+				v.Known = knownSymlink
+			}
+			return v
 		}
 		expect[p] = h
+		lexical[p] = f.Path
+	}
+	for _, f := range outputs {
+		p := st.rel(f.Path)
 		e, ok := o.after[p]
 		if !ok || e.Kind != "file" {
 			return fail("reported output %s is not a regular file on disk after the build", p)
 		}
-		if e.SHA256 != h {
+		if e.SHA256 != expect[p] {
 			return fail("reported output %s has different bytes on disk (%d bytes on disk, %d reported)", p, e.Size, len(f.Contents))
 		}
 	}
@@ -666,7 +676,7 @@ func runBuild(t *testing.T) {
 		"(outdir = src / inside src / symlink to src / case variant, outfile on an input, out-extension = input extension, hash-less entry/asset/chunk names, \"..\" in templates, outbase pairs) "+
 		"× Write × AllowOverwrite × fault (syntax error, missing import, missing export, failing on-end callback); oracle: tree snapshot (kind, mode, size, sha256, mtime, link target) before/after vs "+
 		"OutputFiles — see check(); non-trivial = the build wrote something, or was refused for an input/output or output/output collision")
-	H.SetupRapid("build", H.N(2000, 300000))
+	H.SetupRapid("build", H.N(2000, 200000))
 	rapid.Check(t, func(rt *rapid.T) {
 		c := genCase(rt, "build")
 		H.Report(rt, "build", caseKey(c), c, judge(c))
@@ -677,7 +687,7 @@ func runRebuild(t *testing.T) {
 	H.Rule("rebuild", "rapid: a context with 2–6 rebuilds; between rebuilds the project is edited so that outputs appear and disappear (asset import, dynamic-import chunk, CSS, second asset), "+
 		"break and repair (syntax error, missing import), content edits; optional Cancel() during the second build and failing on-end callback; oracle as build, plus: files deleted by a rebuild ⊆ files "+
 		"written by earlier builds of the context and not current outputs; non-trivial as build, or a stale output was deleted")
-	H.SetupRapid("rebuild", H.N(800, 150000))
+	H.SetupRapid("rebuild", H.N(800, 80000))
 	rapid.Check(t, func(rt *rapid.T) {
 		c := genCase(rt, "context")
 		H.Report(rt, "rebuild", caseKey(c), c, judge(c))
@@ -687,7 +697,7 @@ func runRebuild(t *testing.T) {
 func runCLI(t *testing.T) {
 	H.Rule("cli", "rapid: the same projects and output locations through cli.RunWithPlugins (argv built from the spec with absolute paths; an observer plugin records the OutputFiles the build reported); "+
 		"oracle as build plus: exit code 0 iff no errors")
-	H.SetupRapid("cli", H.N(500, 60000))
+	H.SetupRapid("cli", H.N(500, 40000))
 	rapid.Check(t, func(rt *rapid.T) {
 		c := genCase(rt, "cli")
 		H.Report(rt, "cli", caseKey(c), c, judge(c))
